@@ -48,6 +48,12 @@ func mkRep(t *core.Tape, i int) rep {
 		return rep{Type: "Prod", JSON: map[string]any{"__typename": "Prod", "sku": id}, HookKey: "Prod|sku=" + id,
 			Expect: fmt.Sprintf(`{"__typename":"Prod","sku":%q,"upc":null,"pack":null,"title":%q}`, id, "sku:"+id)}
 	case 2:
+		if t.Bool(1, 4, "null-last-key-field") {
+			// composite key whose LAST field is null while an earlier one has a value: still a
+			// usable key (only an all-null key is skipped)
+			return rep{Type: "Prod", JSON: map[string]any{"__typename": "Prod", "upc": id, "pack": nil}, HookKey: fmt.Sprintf("Prod|upc=%s/<nil>", id),
+				Expect: fmt.Sprintf(`{"__typename":"Prod","sku":null,"upc":%q,"pack":null,"title":%q}`, id, "upc:"+id+"/<nil>")}
+		}
 		pack := t.Choose(3, "pack")
 		m := map[string]any{"__typename": "Prod", "upc": id, "pack": pack}
 		if t.Bool(1, 2, "null-sku") {
